@@ -37,16 +37,12 @@ func cmpStringStringF(op string, a, b string) bool {
 	switch op {
 	case "=":
 		return a == b
-	case ">":
-		return a > b
-	case "<":
-		return a < b
-	case ">=":
-		return a >= b
-	case "<=":
-		return a <= b
 	case "!=":
 		return a != b
+	case ">", "<", ">=", "<=":
+		// the relational operators compare the strings as numbers (XPath 1.0 §3.4), not in
+		// lexical order: '10' < '9' is false
+		return cmpNumberNumberF(op, stringToNumber(a), stringToNumber(b))
 	}
 	return false
 }
@@ -129,7 +125,7 @@ func cmpNodeSetString(t iterator, op string, m, n interface{}) bool {
 		if node == nil {
 			break
 		}
-		if cmpStringStringF(op, b, node.Value()) {
+		if cmpStringStringF(op, node.Value(), b) {
 			return true
 		}
 	}
